@@ -554,6 +554,7 @@ done:
 
 long double iw_strtold(const char *v, iwrc *rcp) {
   char *ep = 0;
+  errno = 0;
   long double ret = strtold(v, &ep);
   if (*ep != '\0' || errno == ERANGE) {
     *rcp = IW_ERROR_INVALID_ARGS;
@@ -564,6 +565,7 @@ long double iw_strtold(const char *v, iwrc *rcp) {
 
 double iw_strtod(const char *v, iwrc *rcp) {
   char *ep = 0;
+  errno = 0;
   double ret = strtod(v, &ep);
   if (*ep != '\0' || errno == ERANGE) {
     *rcp = IW_ERROR_INVALID_ARGS;
@@ -574,6 +576,7 @@ double iw_strtod(const char *v, iwrc *rcp) {
 
 long int iw_strtol(const char *v, int base, iwrc *rcp) {
   char *ep = 0;
+  errno = 0;
   long int ret = strtol(v, &ep, base);
   if (*ep != '\0' || errno == ERANGE) {
     *rcp = IW_ERROR_INVALID_ARGS;
@@ -584,6 +587,7 @@ long int iw_strtol(const char *v, int base, iwrc *rcp) {
 
 long long iw_strtoll(const char *v, int base, iwrc *rcp) {
   char *ep = 0;
+  errno = 0;
   long long ret = strtoll(v, &ep, base);
   if (*ep != '\0' || errno == ERANGE) {
     *rcp = IW_ERROR_INVALID_ARGS;
@@ -594,6 +598,7 @@ long long iw_strtoll(const char *v, int base, iwrc *rcp) {
 
 long int iw_strtoul(const char *v, int base, iwrc *rcp) {
   char *ep = 0;
+  errno = 0;
   long int ret = strtoul(v, &ep, base);
   if (*ep != '\0' || errno == ERANGE) {
     *rcp = IW_ERROR_INVALID_ARGS;
@@ -604,6 +609,7 @@ long int iw_strtoul(const char *v, int base, iwrc *rcp) {
 
 long long iw_strtoull(const char *v, int base, iwrc *rcp) {
   char *ep = 0;
+  errno = 0;
   long long ret = strtoull(v, &ep, base);
   if (*ep != '\0' || errno == ERANGE) {
     *rcp = IW_ERROR_INVALID_ARGS;
